@@ -187,12 +187,13 @@ func (el *eventloop) cread(c *conn) error {
 		switch action {
 		case None:
 		case Close:
-			if c.opened && !c.inMsgQueue.Empty() {
-				// QUIT behind requests that are still in flight: close once their replies are written
-				c.closing = true
+			if !c.opened {
 				return nil
 			}
-			return el.closeConn(c, nil, ProxyEof)
+			// QUIT: close once the replies owed to the client (those of requests still in flight, and
+			// whatever is waiting in the outbound buffer of a slow reader) have been handed to the kernel
+			c.closing = true
+			return el.closeQuit(c)
 		case Shutdown:
 			return gerrors.ErrEngineShutdown
 		}
@@ -333,10 +334,17 @@ func (el *eventloop) flushDone(c *conn) (err error) {
 	for ; n > 0; n-- {
 		MsgPool.Put(c.dequeueInMsg())
 	}
-	if c.closing && c.inMsgQueue.Empty() {
-		return el.closeConn(c, nil, ProxyEof)
+	return el.closeQuit(c)
+}
+
+// closeQuit closes a client that has sent QUIT as soon as nothing is owed to it any more: every
+// request before the QUIT has been answered and every reply has left the outbound buffer. It is
+// called whenever one of the two may have become true.
+func (el *eventloop) closeQuit(c *conn) error {
+	if !c.opened || !c.closing || !c.inMsgQueue.Empty() || !c.outboundBuffer.IsEmpty() {
+		return nil
 	}
-	return nil
+	return el.closeConn(c, nil, ProxyEof)
 }
 
 const iovMax = 1024
@@ -368,6 +376,9 @@ func (el *eventloop) write(c *conn) error {
 	// remove the writable event from poller to help the future event-loops.
 	if c.outboundBuffer.IsEmpty() {
 		_ = el.poller.ModRead(c.pollAttachment)
+		if c.closing {
+			return el.closeQuit(c)
+		}
 	}
 
 	return nil
